@@ -112,6 +112,44 @@ def design(ctx):
     return info, mc.distinct + anyr.distinct + any3_states, mc.generated + anyr.generated + any3_trans
 
 
+FAULTS_QUICK = [("awf-small", True, "fsync-file"), ("aw-stream", False, "fsync-file"),
+                ("overlord-ckpt", True, "fsync-file"), ("awf-small", True, "fsync-dir"),
+                ("aw-stream", True, "write"), ("awf-large", True, "rename")]
+FAULT_VARIANTS = ["awf-small", "awf-large", "awf-empty", "aw-stream", "aw-fromfile", "awf-chown", "af-mtime",
+                  "af-commitas", "awf-follow", "rename", "symlink", "state-ckpt", "overlord-ckpt"]
+
+
+def fault_runs(ctx, binp, recs, st, cts, reps, nck, add):
+    """-> list of CaseTrace (one per fault run, the case that received the fault)"""
+    if ctx.quick:
+        want = FAULTS_QUICK
+        base_cts, base_st = cts, st
+        freps, fnck = reps, nck
+    else:
+        # plan on a small fault-free run of its own (the thorough main run is 12 repetitions long)
+        freps, fnck = 1, 3
+        brecs, base_st = af.run_driver(ctx, binp, freps, fnck, tag="faultbase")
+        base_cts, _ = af.load_traces(brecs, base_st)
+        want = [(v, True, k) for v in FAULT_VARIANTS for k in ("fsync-file", "fsync-dir", "write", "rename")]
+        want += [(v, False, k) for v in ("awf-small", "aw-stream", "af-mtime", "symlink", "rename")
+                 for k in ("fsync-file", "fsync-dir", "rename")]
+    plans = af.plan_faults(base_cts, af.parse_strace(base_st), want)
+    if len(plans) < len(FAULTS_QUICK):
+        raise InfraError("fault plan too small: %s" % plans)
+    jobs = [(i, (lambda pl=pl, i=i: af.run_fault(ctx, binp, freps, fnck, pl, i))) for i, pl in enumerate(plans)]
+    res = af.run_parallel(jobs, ctx.pick(3, 6))
+    out = [res[i] for i in sorted(res)]
+    for ct in out:
+        rec = ct.rec
+        rb = rec["readback"]
+        if rb.startswith("other") or (rb == "absent" and rec["old"]):
+            add("%s:%s:fault=%s:readback-not-old-or-new" % (rec["variant"], "old" if rec["old"] else "noold", rec["fault"]),
+                "%s: with inject=%s the call returned err=%r and the target is neither Old nor New: %s" % (
+                    rec["case"], rec["inject"], rec["api_err"], rb), {"case": rec, "events": ct.events})
+    ctx.log("fault runs: %d (%s)" % (len(out), ", ".join(sorted({c.rec["fault"] for c in out}))))
+    return out, None
+
+
 def run(ctx):
     af.locked_subdir(ctx)
     info, states, transitions = design(ctx)
@@ -119,7 +157,8 @@ def run(ctx):
     # ---- conformance: the real code under strace
     reps = ctx.pick(1, 12)
     nck = ctx.pick(3, 12)
-    recs, st = af.run_driver(ctx, reps, nck)
+    binp = af.build_driver(ctx)
+    recs, st = af.run_driver(ctx, binp, reps, nck)
     cts, ncalls = af.load_traces(recs, st)
     ctx.log("driver: %d cases, %d traced system calls" % (len(cts), ncalls))
 
@@ -148,28 +187,42 @@ def run(ctx):
         if rec.get("extra"):       # not part of the statement (e.g. file mode): reported, never a violation
             extra_notes.append("%s: %s" % (rec["case"], rec["extra"]))
 
+    def report(findings):
+        for f in findings:
+            ct, e = f["ct"], f["event"]
+            rec = ct.rec
+            tag = "%s:%s" % (rec["variant"], "old" if rec["old"] else "noold")
+            if rec.get("fault"):
+                tag += ":fault=%s" % rec["fault"]
+            what = af.describe_event(rec, e)
+            key = "%s:%s@%s" % (tag, f["invariant"], what)
+            last = f["last"] or {}
+            if f["invariant"] == "OldOrNew":
+                why = ("a crash right after strace line %s (%s) can leave the target as dir=%s inodes=%s, which is neither "
+                       "Old <<0>> nor New %s" % (e.get("src"), what, last.get("dhist"), last.get("inodes"), ct.newc))
+            elif f["invariant"] == "NoEarlyExposure":
+                why = ("at strace line %s (%s) the target name points to an inode whose content is not durably New: "
+                       "dir=%s inodes=%s New=%s" % (e.get("src"), what, last.get("dhist"), last.get("inodes"), ct.newc))
+            else:
+                why = "event %r is not possible in the file-system model at this point" % (e,)
+            if rec.get("fault"):
+                why = "with strace -e inject=%s (the call returns an error): %s" % (rec["inject"], why)
+            add(key, "%s [%s]: %s; observed order: %s (%d case(s) of this variant)" % (
+                rec["case"], rec["detail"], why, " ".join(ct.sig), f["group"]),
+                {"case": rec, "events": ct.events, "invariant": f["invariant"], "culprit": e, "post_state": last,
+                 "tlc_tail": f["tlc"]})
+
     findings, vstats = af.validate_cases(ctx, cts)
-    for f in findings:
-        ct, e = f["ct"], f["event"]
-        rec = ct.rec
-        tag = "%s:%s" % (rec["variant"], "old" if rec["old"] else "noold")
-        what = af.describe_event(rec, e)
-        key = "%s:%s@%s" % (tag, f["invariant"], what)
-        last = f["last"] or {}
-        if f["invariant"] == "OldOrNew":
-            why = ("a crash right after strace line %s (%s) can leave the target as dir=%s inodes=%s, which is neither "
-                   "Old <<0>> nor New %s" % (e.get("src"), what, last.get("dhist"), last.get("inodes"), ct.newc))
-        elif f["invariant"] == "NoEarlyExposure":
-            why = ("at strace line %s (%s) the target name points to an inode whose content is not durably New: "
-                   "dir=%s inodes=%s New=%s" % (e.get("src"), what, last.get("dhist"), last.get("inodes"), ct.newc))
-        else:
-            why = "event %r is not possible in the file-system model at this point" % (e,)
-        add(key, "%s [%s]: %s; observed order: %s (%d case(s) of this variant)" % (
-            rec["case"], rec["detail"], why, " ".join(ct.sig), f["group"]),
-            {"case": rec, "events": ct.events, "invariant": f["invariant"], "culprit": e, "post_state": last,
-             "tlc_tail": f["tlc"]})
+    report(findings)
     if not violations and not_done:
         raise InfraError("the API did not perform the write although nothing is wrong with the trace: %s" % not_done[:3])
+
+    # ---- fault runs: the same driver run with ONE system call of one case failed by strace (EIO/ENOSPC)
+    fault_cts, fstats = [], {"tlc_runs": 0, "generated": 0, "distinct": 0, "unexamined_cases": 0}
+    if not violations:
+        fault_cts, _ = fault_runs(ctx, binp, recs, st, cts, reps, nck, add)
+        ffind, fstats = af.validate_cases(ctx, fault_cts)
+        report(ffind)
 
     # ---- vacuity / observations on the real traces
     hist = collections.Counter()
@@ -241,9 +294,14 @@ def run(ctx):
 
     cov = dict(info)
     cov.update({
-        "states": states + vstats["distinct"],
-        "transitions": transitions + vstats["generated"],
-        "traces_validated_against_impl": len(cts),
+        "states": states + vstats["distinct"] + fstats["distinct"],
+        "transitions": transitions + vstats["generated"] + fstats["generated"],
+        "traces_validated_against_impl": len(cts) + len(fault_cts),
+        "fault_runs": len(fault_cts),
+        "fault_kinds": dict(collections.Counter(c.rec["fault"] for c in fault_cts)),
+        "fault_samples": [{"case": c.rec["case"], "inject": c.rec["inject"], "api_err": c.rec["api_err"][:80],
+                           "readback": c.rec["readback"], "order": " ".join(c.sig)} for c in fault_cts[:6]],
+        "fault_trace_states_distinct": fstats["distinct"],
         "api_variants": variants,
         "cases_with_old": sum(1 for ct in cts if ct.rec["old"]),
         "cases_without_old": sum(1 for ct in cts if not ct.rec["old"]),
